@@ -18,6 +18,9 @@ import (
 
 type Input struct {
 	Text string `json:"text"`
+	// After: a text parsed in the same process immediately before Text (the pair space); how Text is
+	// read must not depend on it
+	After *string `json:"after,omitempty"`
 }
 
 type fail struct{ fp, exp, obs string }
@@ -40,7 +43,10 @@ func cmp(a []*rfcread.RStmt, b []*yang.Statement) string {
 
 // check returns the failure (nil if none), whether the text is excluded, and whether it was accepted.
 func check(text string) (f *fail, excluded string, accepted bool, nstmts int) {
-	r := rfcread.Parse(text)
+	return checkRef(rfcread.Parse(text), text)
+}
+
+func checkRef(r rfcread.RRes, text string) (f *fail, excluded string, accepted bool, nstmts int) {
 	if r.Excluded != "" {
 		return nil, r.Excluded, false, 0
 	}
@@ -111,7 +117,60 @@ func quoteTexts(q int) []string {
 	return out
 }
 
+// runAfter: the pair space. Every text of the first pool is parsed, then every text of the second
+// pool, whose reading must agree with the reference as it does on its own: nothing a reader keeps
+// from one call (a pooled lexer, a column, a nesting depth, an error count) may reach the next.
+func runAfter(c *core.Ctx) {
+	var shard int
+	fmt.Sscanf(c.Shard, "after/%d", &shard)
+	first, second := lexspace.PairPool(c.Tier)
+	c.Res.Bound = fmt.Sprintf("pair space: %d first texts x %d second texts, every ordered pair parsed back to back in one process", len(first), len(second))
+	refs := make([]rfcread.RRes, len(second))
+	for i, t := range second {
+		refs[i] = rfcread.Parse(t)
+	}
+	for i, t1 := range first {
+		if i%16 != shard {
+			continue
+		}
+		if c.Expired() {
+			return
+		}
+		t1 := t1
+		for j, t2 := range second {
+			if refs[j].Excluded != "" {
+				continue
+			}
+			caseNo, run := c.Begin()
+			if c.Skip(caseNo, run, Input{Text: t2, After: &t1}) {
+				continue
+			}
+			c.Exec()
+			c.Edge(2)
+			c.StateN(1)
+			c.Validate()
+			core.Guard(func() { yang.Parse(t1, "f") })
+			f, _, acc, ns := checkRef(refs[j], t2)
+			switch {
+			case f != nil:
+				c.NontrivialN(1)
+				c.Outcome("FAIL:after:" + f.fp)
+				c.Fail(caseNo, nil, "after:"+f.fp, Input{Text: t2, After: &t1}, f.exp, f.obs)
+			case acc && ns > 0:
+				c.NontrivialN(1)
+				c.Outcome("second-of-pair:accepted-forest-equal")
+			default:
+				c.Outcome("second-of-pair:rejected-by-both")
+			}
+		}
+	}
+}
+
 func run(c *core.Ctx) {
+	if strings.HasPrefix(c.Shard, "after/") {
+		runAfter(c)
+		return
+	}
 	if c.Shard == "deep" {
 		sizes := []int{}
 		for n := 1; n <= 300; n++ {
@@ -132,7 +191,7 @@ func run(c *core.Ctx) {
 					return
 				}
 				caseNo, run := c.Begin()
-				if c.Skip(caseNo, run, Input{text}) {
+				if c.Skip(caseNo, run, Input{Text: text}) {
 					continue
 				}
 				c.Exec()
@@ -145,7 +204,7 @@ func run(c *core.Ctx) {
 					c.Outcome("excluded:" + excl)
 				case f != nil:
 					c.Outcome("FAIL:" + f.fp)
-					c.Fail(caseNo, nil, "deep:"+f.fp, Input{text}, f.exp, f.obs)
+					c.Fail(caseNo, nil, "deep:"+f.fp, Input{Text: text}, f.exp, f.obs)
 				case acc && ns > 0:
 					c.NontrivialN(1)
 					c.Outcome("accepted-forest-equal")
@@ -164,7 +223,7 @@ func run(c *core.Ctx) {
 			return false
 		}
 		caseNo, run := c.Begin()
-		if c.Skip(caseNo, run, Input{text}) {
+		if c.Skip(caseNo, run, Input{Text: text}) {
 			return true
 		}
 		c.Exec()
@@ -183,14 +242,14 @@ func run(c *core.Ctx) {
 		}
 		if f != nil {
 			c.Outcome("FAIL:" + f.fp)
-			c.Fail(caseNo, nil, f.fp, Input{text}, f.exp, f.obs)
+			c.Fail(caseNo, nil, f.fp, Input{Text: text}, f.exp, f.obs)
 			return true
 		}
 		if acc {
 			if ns > 0 {
 				c.Outcome("accepted-forest-equal")
 				if n%40000 == 7 {
-					b, _ := json.Marshal(Input{text})
+					b, _ := json.Marshal(Input{Text: text})
 					c.Sample(string(b))
 				}
 			} else {
@@ -208,7 +267,13 @@ func replay(tier string, raw json.RawMessage) (bool, string, string) {
 	if err := json.Unmarshal(raw, &in); err != nil {
 		return false, "", err.Error()
 	}
+	if in.After != nil {
+		core.Guard(func() { yang.Parse(*in.After, "f") })
+	}
 	f, excl, _, _ := check(in.Text)
+	if f != nil && in.After != nil {
+		f.fp = "after:" + f.fp
+	}
 	if excl != "" {
 		return false, "", "excluded: " + excl
 	}
@@ -220,8 +285,14 @@ func replay(tier string, raw json.RawMessage) (bool, string, string) {
 
 func init() {
 	core.Register(&core.Prop{
-		ID: "C02", Variant: "plain", Shards: func(tier string) []string { return append(lexspace.Shards(tier), "deep") }, Run: run, Replay: replay,
-		Rule:        "every symbol sequence up to the bound over three small lexical alphabets (characters; lexical pieces such as quotes, escapes, comments, braces, the keyword pattern; pieces inside one statement argument incl. tabs, multi-byte runes, CR LF, same-line comments and single-quoted strings before a multi-line string) is parsed by yang.Parse and by a reference reader written from RFC 7950 section 6; accept/reject must agree, accepted forests must be equal in keywords, argument presence, exact argument strings, nesting and order, rejections must return no statements and a non-empty error; statements nested 1..300 (and 511..513, 1023..1025) deep in compact and one-brace-per-line layouts, balanced and unbalanced; texts containing one of the four constructs the property excludes (or whose reading depends on how a tab is counted) are counted as excluded; states = distinct symbol sequences; non-trivial = accepted with at least one statement",
+		ID: "C02", Variant: "plain", Shards: func(tier string) []string {
+			out := append(lexspace.Shards(tier), "deep")
+			for i := 0; i < 16; i++ {
+				out = append(out, fmt.Sprintf("after/%d", i))
+			}
+			return out
+		}, Run: run, Replay: replay,
+		Rule:        "every symbol sequence up to the bound over three small lexical alphabets (characters; lexical pieces such as quotes, escapes, comments, braces, the keyword pattern; pieces inside one statement argument incl. tabs, multi-byte runes, CR LF, same-line comments and single-quoted strings before a multi-line string) is parsed by yang.Parse and by a reference reader written from RFC 7950 section 6; accept/reject must agree, accepted forests must be equal in keywords, argument presence, exact argument strings, nesting and order, rejections must return no statements and a non-empty error; statements nested 1..300 (and 511..513, 1023..1025) deep in compact and one-brace-per-line layouts, balanced and unbalanced; the pair space: every text of a pool of short and of abruptly ending texts (unterminated quotes and comments at several columns, the cut-off after too many errors, open blocks) is parsed, then every text of a pool of column-, line- and nesting-sensitive texts in the same process, which must be read as on its own; texts containing one of the four constructs the property excludes (or whose reading depends on how a tab is counted) are counted as excluded; states = distinct symbol sequences; non-trivial = accepted with at least one statement",
 		Assumptions: []string{"the reference reader (ref/rfcread) is the RFC reading", "small alphabets and lengths stand for all texts (small-scope hypothesis)"},
 	})
 }
